@@ -74,9 +74,18 @@ Print Assumptions C08_h2_errors_identify.
 (* once the context has ended neither the caller nor the doRequest goroutine can be stuck *)
 Theorem C08_h2_cancel_progress : forall hb s, reach2 hb s -> (exists c, ctx2 s = Some c) ->
   (returned2 s = false -> exists l, In l [JResp; JAbort; JCtx; JDone; JDoneCtx; KCtx; KAbort; KPeerEnd] /\ step2 hb s l <> None) /\
-  (exited2 s = false -> exists l, In l [KCtx; KAbort; KPeerEnd; KCtxAbort] /\ step2 hb s l <> None).
+  (exited2 s = false -> rstall s = false -> exists l, In l [KCtx; KAbort; KPeerEnd; KCtxAbort] /\ step2 hb s l <> None).
 Proof. exact h2_cancel_progress. Qed.
 Print Assumptions C08_h2_cancel_progress.
+
+(* ... and the caller does not depend on the request body's reader: with doRequest blocked inside
+   Request.Body.Read (a reader that Close does not wake) a caller whose context has ended can still move,
+   also out of the wait that follows a reset by the peer *)
+Theorem C08_h2_caller_returns_despite_stalled_reader : forall hb s, reach2 hb s -> (exists c, ctx2 s = Some c) ->
+  rstall s = true -> returned2 s = false ->
+  exists l, In l [JResp; JAbort; JCtx; JDone; JDoneCtx] /\ step2 hb s l <> None.
+Proof. exact h2_caller_returns_despite_stalled_reader. Qed.
+Print Assumptions C08_h2_caller_returns_despite_stalled_reader.
 
 (* settled after a cancellation: RST_STREAM(CANCEL) only if the headers were sent, no RST_STREAM
    only if they were not or the stream was closed on both sides; request body closed; donec closed *)
